@@ -3,6 +3,7 @@ package rules
 import (
 	"fmt"
 	"go/ast"
+	"go/token"
 	"go/types"
 	"sort"
 	"strings"
@@ -141,101 +142,369 @@ func ruleHintXfer(p *core.Program) []core.Obligation {
 	if newOp == nil {
 		return append(obs, core.Ob(rule, "execution.newOperator", "-", "", core.Lost, "not found"))
 	}
-	// planning functions: newOperator and the helpers that take hints and call it
-	planners := map[*ssa.Function]bool{newOp: true}
-	for _, fn := range p.Funcs {
-		if core.Rel(fn.Pkg.Pkg.Path()) != "execution" {
-			continue
-		}
-		hasHints := false
+	// planning functions: newOperator and the helpers that take hints and (directly or through another
+	// planner) call it
+	hintsParam := func(fn *ssa.Function) *ssa.Parameter {
 		for _, pr := range fn.Params {
 			if core.TypeIs(pr.Type(), pkgStorage, "SelectHints") {
-				hasHints = true
+				return pr
 			}
 		}
-		if hasHints {
-			planners[fn] = true
+		return nil
+	}
+	planners := map[*ssa.Function]bool{newOp: true}
+	for changed := true; changed; {
+		changed = false
+		for _, fn := range p.Funcs {
+			if planners[fn] || fn.Parent() != nil || core.Rel(fn.Pkg.Pkg.Path()) != "execution" || hintsParam(fn) == nil {
+				continue
+			}
+			calls := false
+			core.EachInstr(fn, func(_ *ssa.BasicBlock, _ int, ins ssa.Instruction) {
+				if c, ok := ins.(*ssa.Call); ok && planners[c.Call.StaticCallee()] {
+					calls = true
+				}
+			})
+			if calls {
+				planners[fn] = true
+				changed = true
+			}
 		}
 	}
-	// state of a hints field at an instruction inside fn: the last dominating store, else "inherit"
-	stateAt := func(fn *ssa.Function, at ssa.Instruction, field string) string {
-		state := "inherit"
-		var best ssa.Instruction
-		core.EachInstr(fn, func(b *ssa.BasicBlock, i int, ins ssa.Instruction) {
-			st, ok := ins.(*ssa.Store)
-			if !ok || !core.IsFieldOf(st.Addr, pkgStorage, "SelectHints", field) {
-				return
+	hintsArg := func(c *ssa.Call) ssa.Value {
+		for _, a := range c.Call.Args {
+			if core.TypeIs(a.Type(), pkgStorage, "SelectHints") {
+				return a
 			}
-			if _, isLocal := st.Addr.(*ssa.FieldAddr).X.(*ssa.Alloc); !isLocal {
-				return
+		}
+		return nil
+	}
+	// stateOf: how field of the hints value hv, as used at the instruction at of fn, relates to fn's own
+	// hints parameter: "set", "reset", "inherit", or "unknown".
+	var stateOf func(fn *ssa.Function, hv ssa.Value, field string, depth int) string
+	stateOf = func(fn *ssa.Function, hv ssa.Value, field string, depth int) string {
+		if depth > 6 {
+			return "unknown"
+		}
+		switch x := hv.(type) {
+		case *ssa.Parameter:
+			return "inherit"
+		case *ssa.UnOp:
+			if x.Op != token.MUL {
+				return "unknown"
 			}
-			if !core.InstrDominates(st, at) {
-				return
+			st := reachingStore(fn, x.X, field, x)
+			if st == nil {
+				return "unknown"
 			}
-			if best != nil && !core.InstrDominates(best, st) {
-				return
+			if st.Addr == x.X {
+				return stateOf(fn, st.Val, field, depth+1) // the whole record was assigned
 			}
-			best = st
 			if c, ok := st.Val.(*ssa.Const); ok && (c.Value == nil || c.Value.String() == `""` || c.Value.String() == "false") {
-				state = "reset"
-			} else {
-				state = "set"
+				return "reset"
 			}
-		})
-		return state
+			return "set"
+		case *ssa.Call:
+			// a helper that returns the record: hints = withoutGrouping(hints)
+			h := x.Call.StaticCallee()
+			if h == nil || h.Blocks == nil || !p.InRepo(h) || hintsParam(h) == nil {
+				return "unknown"
+			}
+			res := ""
+			core.EachInstr(h, func(b *ssa.BasicBlock, _ int, ins ssa.Instruction) {
+				ret, ok := ins.(*ssa.Return)
+				if !ok || b == h.Recover {
+					return
+				}
+				for _, r := range ret.Results {
+					if !core.TypeIs(r.Type(), pkgStorage, "SelectHints") {
+						continue
+					}
+					s := stateOf(h, r, field, depth+1)
+					if res == "" {
+						res = s
+					} else if res != s {
+						res = "unknown"
+					}
+				}
+			})
+			if res == "inherit" {
+				if a := hintsArg(x); a != nil {
+					return stateOf(fn, a, field, depth+1)
+				}
+				return "unknown"
+			}
+			if res == "" {
+				return "unknown"
+			}
+			return res
+		}
+		return "unknown"
 	}
+	// contexts of a planning call: the chain of call sites from newOperator down to it
+	type site struct {
+		fn   *ssa.Function
+		call *ssa.Call
+	}
+	sitesOf := map[*ssa.Function][]site{}
 	var planFns []*ssa.Function
 	for fn := range planners {
 		planFns = append(planFns, fn)
 	}
 	sort.Slice(planFns, func(i, j int) bool { return planFns[i].String() < planFns[j].String() })
 	for _, fn := range planFns {
+		f := fn
+		core.EachInstr(fn, func(_ *ssa.BasicBlock, _ int, ins ssa.Instruction) {
+			if c, ok := ins.(*ssa.Call); ok && planners[c.Call.StaticCallee()] {
+				sitesOf[c.Call.StaticCallee()] = append(sitesOf[c.Call.StaticCallee()], site{f, c})
+			}
+		})
+	}
+	// resolve: kind and field states of the children planned by the call c in fn, looking outwards through
+	// the call sites of fn while the kind is unknown or a field is inherited
+	type resolved struct {
+		kind   string
+		states map[string]string
+		where  string
+	}
+	fields := []string{"Func", "Grouping", "By"}
+	var resolve func(s site, depth int) []resolved
+	resolve = func(s site, depth int) []resolved {
+		kind := nodeKindAt(s.fn, s.call)
+		states := map[string]string{}
+		for _, f := range fields {
+			if a := hintsArg(s.call); a != nil {
+				states[f] = stateOf(s.fn, a, f, 0)
+			} else {
+				states[f] = "unknown"
+			}
+		}
+		need := kind == ""
+		for _, f := range fields {
+			if states[f] == "inherit" {
+				need = true
+			}
+		}
+		if !need || s.fn == newOp || depth > 3 {
+			return []resolved{{kind, states, s.fn.Name()}}
+		}
+		var out []resolved
+		for _, outer := range sitesOf[s.fn] {
+			if outer.fn == s.fn {
+				continue
+			}
+			for _, o := range resolve(outer, depth+1) {
+				r := resolved{kind, map[string]string{}, s.fn.Name()}
+				if r.kind == "" {
+					r.kind = o.kind
+				}
+				for _, f := range fields {
+					r.states[f] = states[f]
+					// what the outer site established holds for the node kind the outer site plans; it
+					// carries over when this site plans children of the same node (no kind of its own,
+					// or the typed node parameter of a helper of that kind)
+					if states[f] == "inherit" && (kind == "" || kind == o.kind) {
+						r.states[f] = o.states[f]
+					}
+				}
+				out = append(out, r)
+			}
+		}
+		if len(out) == 0 {
+			return []resolved{{kind, states, s.fn.Name()}}
+		}
+		return out
+	}
+	for _, fn := range planFns {
+		f := fn
 		core.EachInstr(fn, func(b *ssa.BasicBlock, i int, ins ssa.Instruction) {
 			call, ok := ins.(*ssa.Call)
 			if !ok || call.Call.StaticCallee() != newOp {
 				return
 			}
-			kind := nodeKindAt(fn, call)
-			if !constrained[kind] {
-				return
-			}
-			for _, field := range []string{"Func", "Grouping", "By"} {
-				got := stateAt(fn, call, field)
-				// a helper inherits what its caller established before calling it
-				if got == "inherit" && fn != newOp {
-					for _, cs := range p.CallSitesOf(fn) {
-						if cs == nil {
-							continue
-						}
-						var at ssa.Instruction
-						core.EachInstr(newOp, func(b *ssa.BasicBlock, i int, x ssa.Instruction) {
-							if core.CallCommon(x) == cs {
-								at = x
-							}
-						})
-						if at != nil {
-							got = stateAt(newOp, at, field)
-						}
-					}
+			for _, r := range resolve(site{f, call}, 0) {
+				if !constrained[r.kind] {
+					continue
 				}
-				want := "inherit"
-				if field == "Func" {
-					if w, ok := expectFunc[kind]; ok {
-						want = w
+				for _, field := range fields {
+					got := r.states[field]
+					want := "inherit"
+					if field == "Func" {
+						if w, ok := expectFunc[r.kind]; ok {
+							want = w
+						}
+					} else {
+						want = expectGroup(r.kind)
 					}
-				} else {
-					want = expectGroup(kind)
-				}
-				key := fmt.Sprintf("child of %s planned in %s: hints.%s", kind, fn.Name(), field)
-				if got == want {
-					obs = append(obs, core.Ob(rule, key, p.Pos(call.Pos()), core.FuncName(fn), core.Held, got))
-				} else {
-					obs = append(obs, core.Ob(rule, key, p.Pos(call.Pos()), core.FuncName(fn), core.Violated, fmt.Sprintf("hints.%s is %s for the children of a %s, the reference has it %s: the storage is told the wrong enclosing function/grouping for these selects", field, got, kind, want)))
+					key := fmt.Sprintf("child of %s planned in %s: hints.%s", r.kind, f.Name(), field)
+					switch {
+					case got == want:
+						obs = append(obs, core.Ob(rule, key, p.Pos(call.Pos()), core.FuncName(f), core.Held, got))
+					case got == "unknown":
+						obs = append(obs, core.Ob(rule, key, p.Pos(call.Pos()), core.FuncName(f), core.Undecided, fmt.Sprintf("the value of hints.%s passed here cannot be traced (stores that do not dominate the call, or a record of unrecognised construction)", field)))
+					default:
+						obs = append(obs, core.Ob(rule, key, p.Pos(call.Pos()), core.FuncName(f), core.Violated, fmt.Sprintf("hints.%s is %s for the children of a %s, the reference has it %s: the storage is told the wrong enclosing function/grouping for these selects", field, got, r.kind, want)))
+					}
 				}
 			}
 		})
 	}
 	return obs
+}
+
+// rangeOrigin names one result of one select-range computation: the instruction in the analysed function that
+// produced it (a call of getTimeRangesForVectorSelector, or of a helper that returns hints filled from one)
+// and which of the two results it is (0 = start, 1 = end).
+type rangeOrigin struct {
+	call ssa.Instruction
+	idx  int
+}
+
+// reachingStore finds the store that defines field (or the whole struct) of the local struct variable a at
+// the instruction at: the last store that dominates at. A store that can execute between that one and at
+// without dominating it makes the definition ambiguous (nil).
+func reachingStore(fn *ssa.Function, a ssa.Value, field string, at ssa.Instruction) *ssa.Store {
+	var last *ssa.Store
+	var all []*ssa.Store
+	core.EachInstr(fn, func(_ *ssa.BasicBlock, _ int, x ssa.Instruction) {
+		st, ok := x.(*ssa.Store)
+		if !ok {
+			return
+		}
+		hit := st.Addr == a
+		if fa, ok := st.Addr.(*ssa.FieldAddr); ok && fa.X == a {
+			if _, f, _, ok := core.FieldRef(fa); ok && f == field {
+				hit = true
+			}
+		}
+		if !hit {
+			return
+		}
+		all = append(all, st)
+		if core.InstrDominates(st, at) && (last == nil || core.InstrDominates(last, st)) {
+			last = st
+		}
+	})
+	if last == nil {
+		return nil
+	}
+	for _, st := range all {
+		if st == last || core.InstrDominates(st, at) {
+			continue
+		}
+		if !core.InstrDominates(last, st) {
+			continue
+		}
+		if st.Block() != at.Block() {
+			if core.Reaches(st.Block(), at.Block()) {
+				return nil
+			}
+			continue
+		}
+		// same block, after at: reaches at only around a loop
+		for _, succ := range st.Block().Succs {
+			if core.Reaches(succ, at.Block()) {
+				return nil
+			}
+		}
+	}
+	return last
+}
+
+// hintFieldOfResult: the helper h returns a SelectHints whose field (Start/End) is, on every return, the
+// idx-th result of a range computation made in h. Returns idx, or -1.
+func hintFieldOfResult(p *core.Program, h *ssa.Function, field string, depth int) int {
+	if h == nil || h.Blocks == nil || !p.InRepo(h) || depth > 2 {
+		return -1
+	}
+	res := -2
+	core.EachInstr(h, func(b *ssa.BasicBlock, _ int, x ssa.Instruction) {
+		ret, ok := x.(*ssa.Return)
+		if !ok || b == h.Recover {
+			return
+		}
+		idx := -1
+		for _, r := range ret.Results { // not core.RetResults: the field stores into the returned variable matter
+			if !core.TypeIs(r.Type(), pkgStorage, "SelectHints") {
+				continue
+			}
+			if o := hintFieldOrigin(p, h, r, field, ret, depth); o != nil {
+				idx = o.idx
+			}
+		}
+		if res == -2 {
+			res = idx
+		} else if res != idx {
+			res = -1
+		}
+	})
+	if res < 0 {
+		return -1
+	}
+	return res
+}
+
+// hintFieldOrigin resolves field (Start/End) of the SelectHints value hv as used by the instruction at.
+func hintFieldOrigin(p *core.Program, fn *ssa.Function, hv ssa.Value, field string, at ssa.Instruction, depth int) *rangeOrigin {
+	switch x := hv.(type) {
+	case *ssa.UnOp:
+		if x.Op != token.MUL {
+			return nil
+		}
+		st := reachingStore(fn, x.X, field, x)
+		if st == nil {
+			return nil
+		}
+		if st.Addr == x.X {
+			return hintFieldOrigin(p, fn, st.Val, field, st, depth) // the whole struct was assigned
+		}
+		return rangeValueOrigin(p, fn, st.Val, depth)
+	case *ssa.Call:
+		if idx := hintFieldOfResult(p, x.Call.StaticCallee(), field, depth+1); idx >= 0 {
+			return &rangeOrigin{x, idx}
+		}
+	}
+	return nil
+}
+
+// rangeValueOrigin resolves an int64 value to the range computation it comes from.
+func rangeValueOrigin(p *core.Program, fn *ssa.Function, v ssa.Value, depth int) *rangeOrigin {
+	switch x := v.(type) {
+	case *ssa.Extract:
+		if c, ok := x.Tuple.(*ssa.Call); ok && core.IsStatic(&c.Call, modExecution+".getTimeRangesForVectorSelector") && x.Index < 2 {
+			return &rangeOrigin{c, x.Index}
+		}
+	case *ssa.UnOp:
+		// a load of hints.Start / hints.End
+		if x.Op != token.MUL {
+			return nil
+		}
+		fa, ok := x.X.(*ssa.FieldAddr)
+		if !ok {
+			return nil
+		}
+		n, f, _, ok := core.FieldRef(fa)
+		if !ok || n == nil || n.Obj().Name() != "SelectHints" || (f != "Start" && f != "End") {
+			return nil
+		}
+		st := reachingStore(fn, fa.X, f, x)
+		if st == nil {
+			return nil
+		}
+		if st.Addr == fa.X {
+			return hintFieldOrigin(p, fn, st.Val, f, st, depth)
+		}
+		return rangeValueOrigin(p, fn, st.Val, depth)
+	case *ssa.Field:
+		if c, ok := x.X.(*ssa.Call); ok && core.TypeIs(c.Type(), pkgStorage, "SelectHints") {
+			st := c.Type().Underlying().(*types.Struct)
+			f := st.Field(x.Field).Name()
+			if idx := hintFieldOfResult(p, c.Call.StaticCallee(), f, depth+1); idx >= 0 {
+				return &rangeOrigin{c, idx}
+			}
+		}
+	}
+	return nil
 }
 
 func ruleHintRange(p *core.Program) []core.Obligation {
@@ -258,35 +527,28 @@ func ruleHintRange(p *core.Program) []core.Obligation {
 			k++
 			key := fmt.Sprintf("%s -> %s #%d", core.FuncName(fn), call.Call.StaticCallee().Name(), k)
 			mint, maxt := call.Call.Args[1], call.Call.Args[2]
-			// both extracts of one range computation
-			e1, ok1 := mint.(*ssa.Extract)
-			e2, ok2 := maxt.(*ssa.Extract)
-			if !ok1 || !ok2 || e1.Tuple != e2.Tuple || e1.Index != 0 || e2.Index != 1 {
+			var hints ssa.Value
+			for _, a := range call.Call.Args {
+				if core.TypeIs(a.Type(), pkgStorage, "SelectHints") {
+					hints = a
+				}
+			}
+			// both results of one range computation
+			o1, o2 := rangeValueOrigin(p, fn, mint, 0), rangeValueOrigin(p, fn, maxt, 0)
+			if o1 == nil || o2 == nil {
+				obs = append(obs, core.Ob(rule, key, p.Pos(call.Pos()), core.FuncName(fn), core.Undecided, "the select range cannot be traced to getTimeRangesForVectorSelector (directly, through hints.Start/End or through a helper that returns the hints)"))
+				return
+			}
+			if o1.call != o2.call || o1.idx != 0 || o2.idx != 1 {
 				obs = append(obs, core.Ob(rule, key, p.Pos(call.Pos()), core.FuncName(fn), core.Violated, "the select range is not the (start, end) pair of one range computation"))
 				return
 			}
-			if c, ok := e1.Tuple.(*ssa.Call); !ok || !core.IsStatic(&c.Call, modExecution+".getTimeRangesForVectorSelector") {
-				obs = append(obs, core.Ob(rule, key, p.Pos(call.Pos()), core.FuncName(fn), core.Undecided, "range does not come from getTimeRangesForVectorSelector"))
-				return
+			// hints.Start/End as passed hold exactly these values
+			var hs, he *rangeOrigin
+			if hints != nil {
+				hs, he = hintFieldOrigin(p, fn, hints, "Start", call, 0), hintFieldOrigin(p, fn, hints, "End", call, 0)
 			}
-			// the last stores into hints.Start/End dominating the call store exactly these values
-			okS, okE := false, false
-			var lastS, lastE *ssa.Store
-			core.EachInstr(fn, func(b *ssa.BasicBlock, i int, x ssa.Instruction) {
-				st, ok := x.(*ssa.Store)
-				if !ok || !core.InstrDominates(st, call) {
-					return
-				}
-				if core.IsFieldOf(st.Addr, pkgStorage, "SelectHints", "Start") && (lastS == nil || core.InstrDominates(lastS, st)) {
-					lastS = st
-				}
-				if core.IsFieldOf(st.Addr, pkgStorage, "SelectHints", "End") && (lastE == nil || core.InstrDominates(lastE, st)) {
-					lastE = st
-				}
-			})
-			okS = lastS != nil && lastS.Val == mint
-			okE = lastE != nil && lastE.Val == maxt
-			if okS && okE {
+			if hs != nil && he != nil && *hs == *o1 && *he == *o2 {
 				obs = append(obs, core.Ob(rule, key, p.Pos(call.Pos()), core.FuncName(fn), core.Held, "hints.Start/End hold the very range passed to the selector"))
 			} else {
 				obs = append(obs, core.Ob(rule, key, p.Pos(call.Pos()), core.FuncName(fn), core.Violated, "hints.Start/End are not (re)assigned from the range passed to the selector: the select is issued with the range inherited from the enclosing expression"))
